@@ -21,7 +21,10 @@ PROPERTY = 'C19'
 RULE = ('each family enumerates a full product: author limits x parity mode x summand x student re-writing '
         '(equivalence / tolerance), ordered subsets of input_positions x per-field menus (positions), author sums '
         'with infinite limits x cut-offs x student re-writings (infinite), error alphabets x subsets of '
-        'input_positions (student / author errors), and all draws of the sampled variable (sample_dependent). '
+        'input_positions (student / author errors), all draws of the sampled variable (sample_dependent), every '
+        'ordered pair of limit kinds on the student\'s and on the author\'s side (limit_pairs), graders built with '
+        'every option left at its documented default (defaults), zero tolerances (tolerance_edges) and every '
+        'sequence of 2 (3) calls on one grader or on two graders sharing their configuration objects (reuse). '
         'A case is non-trivial when the submitted text differs from the author\'s text and the author\'s index '
         'set is not empty (for error families: always), i.e. when a wrong implementation is distinguishable')
 EXPLANATION = ('states = distinct (configuration, submission) cases; transitions = executions of the real '
@@ -30,13 +33,16 @@ EXPLANATION = ('states = distinct (configuration, submission) cases; transitions
 ASSUMPTIONS = [
     'scipy is absent: fact/factorial (and with them the infty_val_fact cut-off) and IntegralGrader are not exercised',
     'guard band: differences within 1% (+1e-11) of the tolerance are not judged; with an effectively zero '
-    'tolerance (percentage of a zero sum) inexact floating-point summands (i^n) are not judged',
+    'tolerance (0, \'0%\', the default 1e-12, a percentage of a zero sum) inexact floating-point summands (i^n) are '
+    'judged only beyond 1e-7, exact ones (integers, powers of two) beyond 1e-13 x (1 + |author| + |student|)',
     'an empty sum (value 0) compared with an array-valued sum is left open (error or incorrect both accepted)',
     'both limits the same infinity, non-integer cut-offs, and an instructor variable\'s NAME reused as the '
     'student\'s summation variable are left open',
     'exact class and wording of errors are free: "student-facing" = StudentFacingError in the MRO and not '
     'ConfigError; "configuration error" = ConfigError',
     'failable_evals = 0 throughout',
+    'a field holding only white space counts as blank; nan and array-valued limits count as non-integer limits',
+    'a student submission that fails in the middle of its own sum (0/(n-2)) is not judged, it only serves as history',
 ]
 
 KEYS = ('lower', 'upper', 'summand', 'summation_variable')
@@ -147,13 +153,17 @@ def executions(prob):
                'tolerance': prob.get('tolerance', 1e-9), 'samples': samples}
         if cfg['tolerance'] == UNSET:
             del cfg['tolerance']        # the documented default (an absolute 1e-12) applies
+        for k in prob.get('omit') or ():
+            cfg.pop(k, None)            # option left at its documented default (even_odd 0, samples 2, ...)
+        if prob.get('debug'):
+            cfg['debug'] = True
         if prob.get('positions') is not None:
             cfg['input_positions'] = dict(prob['positions'])
         if prob.get('infty_val') is not None:
             cfg['infty_val'] = prob['infty_val']
         if prob.get('user_fact'):
             # scipy is absent, so the built-in fact cannot be evaluated: the author supplies one
-            cfg['user_functions'] = {'fact': _user_fact}
+            cfg['user_functions'] = {'fact': _user_fact, 'factorial': _user_fact}
             cfg['suppress_warnings'] = True
             if prob.get('infty_val_fact') is not None:
                 cfg['infty_val_fact'] = prob['infty_val_fact']
@@ -164,6 +174,7 @@ def executions(prob):
         if prob.get('instr'):
             # the author also defines an ordinary and a random function
             cfg['user_functions'] = dict(cfg.get('user_functions', {}), uf=_user_uf)
+            cfg['user_constants'] = {'kc': 2}
             if prob.get('randfunc'):
                 cfg['user_functions']['rf'] = mitxgraders.RandomFunction()
             variables.append('c')
@@ -267,7 +278,8 @@ def judge(fam, prob, expected_of, nontrivial, sig_of=None, desc=None):
 
 def describe_prob(prob):
     d = {k: prob[k] for k in ('answers', 'positions', 'even_odd', 'tolerance', 'infty_val', 'infty_val_fact',
-                              'user_fact', 'samples', 'xvals', 'instr', 'randfunc', 'input') if prob.get(k) is not None}
+                              'user_fact', 'samples', 'xvals', 'instr', 'randfunc', 'omit', 'debug', 'input')
+         if prob.get(k) is not None}
     return d
 
 
@@ -386,6 +398,8 @@ TOL_SUMMANDS_QUICK = ('lin', 'cpow', 'vec')
 class Tolerance(Family):
     name = 'tolerance'
     timeout = 20.0
+    tols = TOLS
+    perts = PERTS
     rule = ('author sum_{n=a..b} f(n), a <= b in [-R, R] (R = 2 quick, 5 thorough) x even_odd x f in %s x '
             '(quick: lin, cpow, vec only) x tolerance in %s x student summand f*(1+d) or f+e with (kind, amount) in %s; expected: '
             '|difference| against the tolerance (a percentage is taken of the AUTHOR\'s value; not configured = the documented '
@@ -406,7 +420,7 @@ class Tolerance(Family):
     def build(self, case):
         a, b, p, skey, ti, pi = case
         tpl, f, one, exact, needs_x = SUMMANDS[skey]
-        kind, amount = PERTS[pi]
+        kind, amount = self.perts[pi]
         amt = F(amount)
         base = sub(tpl, AUTHOR_VAR)
         if kind == 'scale':
@@ -418,7 +432,7 @@ class Tolerance(Family):
             stxt = '%s + %s' % (base, unit)
             fn = (lambda m, x: ref.vshift(f(m, x), amt))
         prob = {'answers': {'lower': txt(a), 'upper': txt(b), 'summand': base, 'summation_variable': AUTHOR_VAR},
-                'even_odd': p, 'tolerance': TOLS[ti], 'samples': 2,
+                'even_odd': p, 'tolerance': self.tols[ti], 'samples': 2,
                 'input': [txt(a), txt(b), stxt, AUTHOR_VAR]}
         return prob, (a, b, f), (a, b, fn), exact
 
@@ -429,11 +443,41 @@ class Tolerance(Family):
         a, b, p, skey, ti, pi = case
         prob, author, student, exact = self.build(case)
         nontriv = bool(ref.index_set(a, b, p, 1000))
+        tol = self.tols[ti]
         return judge(self.name, prob,
                      lambda xs: ref_verdict(author, student, p, 1000,
-                                            DEFAULT_TOLERANCE if TOLS[ti] == UNSET else TOLS[ti], xs, exact), nontriv,
+                                            DEFAULT_TOLERANCE if tol == UNSET else tol, xs, exact), nontriv,
                      sig_of=lambda exp, got, obs: 'tolerance:%s:%s-but-%s'
-                     % ('default' if TOLS[ti] == UNSET else 'percent' if isinstance(TOLS[ti], str) else 'absolute', exp, got))
+                     % ('default' if tol == UNSET else 'percent' if isinstance(tol, str) else
+                        'zero' if tol == 0 else 'absolute', exp, got))
+
+
+# ---------------------------------------------------------------------------------------- 2b. tolerance edges
+
+EDGE_TOLS = (0, '0%', 0.01, '2%')
+EDGE_PERTS = (('scale', '0'), ('scale', '0.000000000001'), ('add', '0.0000000001'), ('add', '0.008'), ('add', '0.1'))
+EDGE_SUMMANDS = ('lin', 'vec', 'cpow')
+
+
+class ToleranceEdges(Tolerance):
+    name = 'tolerance_edges'
+    tols = EDGE_TOLS
+    perts = EDGE_PERTS
+    rule = ('as `tolerance`, with the falsy-but-valid tolerances 0 and \'0%%\' (an unperturbed re-writing f*(1+0) must '
+            'still be correct, any visible difference incorrect) and an amount (0.008 added to every component) that '
+            'separates the norm of an array difference from its largest component at tolerance 0.01: a <= b in '
+            '[-1, 2] (quick, even_odd 0) / [-3, 3] (thorough, all even_odd) x f in %s x tolerance in %s x (kind, amount) '
+            'in %s; non-trivial = author sum non-empty' % (list(EDGE_SUMMANDS), list(EDGE_TOLS), list(EDGE_PERTS)))
+
+    def cases(self, tier):
+        lo, hi = (-1, 2) if tier == 'quick' else (-3, 3)
+        for a in range(lo, hi + 1):
+            for b in range(a, hi + 1):
+                for p in ((0,) if tier == 'quick' else (0, 1, 2)):
+                    for skey in EDGE_SUMMANDS:
+                        for ti in range(len(EDGE_TOLS)):
+                            for pi in range(len(EDGE_PERTS)):
+                                yield (a, b, p, skey, ti, pi)
 
 
 # ======================================================================================== 3. input positions
@@ -624,7 +668,9 @@ class Infinite(Family):
 
 # ======================================================================================== 4b. factorial cut-off
 
-FC_SUMMANDS = (('1+0*fact({v})', lambda n, x: R(1)), ('{v}*fact(0)', lambda n, x: R(n)))
+FC_SUMMANDS = (('1+0*fact({v})', lambda n, x: R(1)), ('{v}*fact(0)', lambda n, x: R(n)),
+               # the factorial under its other documented name
+               ('1+0*factorial({v})', lambda n, x: R(1)))
 FC_CUTS = ((50, None), (50, 12), (9, 12))      # (infty_val, infty_val_fact); None = documented default 80
 FC_VARIANTS = ('same', 'swap', 'rename', 'explicit_fact', 'explicit_fact-1', 'explicit_fact+1',
                'explicit_plain', 'nofact_infty', 'nofact_explicit_fact', 'nofact_explicit_plain')
@@ -633,8 +679,8 @@ FC_VARIANTS = ('same', 'swap', 'rename', 'explicit_fact', 'explicit_fact-1', 'ex
 class FactorialCutoff(Family):
     name = 'factorial_cutoff'
     timeout = 30.0
-    rule = ('author sum_{n=0..infty} s(n), s in {1+0*fact(n), n*fact(0)} (fact supplied through user_functions '
-            'because scipy is absent) x (infty_val, infty_val_fact) in {(50, default 80), (50, 12), (9, 12)} x '
+    rule = ('author sum_{n=0..infty} s(n), s in {1+0*fact(n), n*fact(0), 1+0*factorial(n)} (fact and factorial '
+            'supplied through user_functions because scipy is absent) x (infty_val, infty_val_fact) in {(50, default 80), (50, 12), (9, 12)} x '
             'even_odd x student variants %s: the documented rule is that a sum whose summand uses the factorial '
             'replaces infinity by infty_val_fact, any other by infty_val; the summands do not converge so every '
             'missing or extra term is visible; non-trivial = variant != same' % (list(FC_VARIANTS),))
@@ -652,7 +698,7 @@ class FactorialCutoff(Family):
         C, Cf = FC_CUTS[ci]
         cf = 80 if Cf is None else Cf
         var = 'k' if v == 'rename' else AUTHOR_VAR
-        plain = tpl.replace('fact({v})', '{v}').replace('*fact(0)', '')
+        plain = tpl.replace('factorial({v})', '{v}').replace('fact({v})', '{v}').replace('*fact(0)', '')
         slo, shi, stxt, scut = 0, INF, sub(tpl, var), cf
         if v == 'swap':
             slo, shi = INF, 0
@@ -690,21 +736,28 @@ BAD_LIMITS = (('noninteger', '1.5'), ('noninteger', '1/2'), ('noninteger', 'x+0.
               ('noninteger', '0.3/0.1'), ('noninteger', '0.1*3*10'), ('noninteger', '3+1e-10'), ('noninteger', '1e-10'),
               ('complex', 'i'),
               ('complex', '1+i'), ('complex', '2*i'), ('instructor-var', 'c'), ('instructor-var', 'c-5'),
-              ('instructor-var', 'pi-pi'), ('blank', ''))
+              ('instructor-var', 'pi-pi'), ('blank', ''),
+              # negative non-integers, a negative imaginary number, limits that evaluate to nan or to an array,
+              # a field holding nothing but white space
+              ('noninteger', '-1.5'), ('noninteger', '-1/2'), ('complex', '-i'), ('noninteger-nan', 'infty-infty'),
+              ('noninteger-array', '[1, 2]'), ('blank', ' '))
 BAD_SUMMANDS = (('instructor-var', 'c*{v}+x'), ('instructor-var', '5*{v}+x+0*c'), ('instructor-var', '5*{v}+x+0*pi'),
-                ('blank', ''))
+                ('blank', ''), ('blank', ' '))
 BAD_VARS = (('variable-declared', 'x'), ('variable-constant', 'i'), ('variable-constant', 'j'),
             ('variable-constant', 'e'), ('variable-constant', 'infty'), ('variable-constant', 'pi'),
             ('variable-function', 'sin'), ('variable-function', 'sqrt'), ('variable-invalid-name', '2k'),
             ('variable-invalid-name', 'k k'), ('variable-invalid-name', '_k'), ('blank', ''),
             ('variable-user-function', 'uf'), ('variable-random-function', 'rf'),
-            ('instructor-name-as-dummy', 'c'))
+            ('instructor-name-as-dummy', 'c'),
+            ('blank', ' '), ('variable-user-constant', 'kc'), ('variable-function', 'fact'),
+            ('variable-function', 'factorial'))
 
 
 class StudentErrors(Family):
     name = 'student_errors'
     timeout = 20.0
-    rule = ('author sum_{n=0..3} c*n+x (x in DiscreteSet(2,3), c = 5 instructor-only, pi also instructor-only), '
+    rule = ('author sum_{n=0..3} c*n+x (x in DiscreteSet(2,3), c = 5 instructor-only, pi also instructor-only; a user '
+            'function uf, a random function rf where named, a user constant kc), '
             'every subset of input_positions x every entered field x its error alphabet (limits %s, summand %s, '
             'variable %s) x the other entered fields clean-correct or clean-incorrect; expected: a student-facing '
             'error (StudentFacingError, not ConfigError), never a verdict; the instructor variable\'s name used as '
@@ -760,13 +813,21 @@ class StudentErrors(Family):
 # ======================================================================================== 6. author errors
 
 AUTH_LIMITS = (('noninteger-limit', '1.5'), ('noninteger-limit', '1/2'), ('noninteger-limit', 'x+0.5'),
-               ('complex-limit', 'i'), ('complex-limit', '1+i'), ('blank-field', ''))
+               ('complex-limit', 'i'), ('complex-limit', '1+i'), ('blank-field', ''),
+               ('unparseable-limit', '1+'), ('unparseable-limit', '(2'), ('nan-limit', 'infty-infty'),
+               ('array-limit', '[1, 2]'), ('blank-field', ' '), ('noninteger-limit', '-1/2'),
+               # fails only at the samples where x = 3
+               ('sample-dependent:noninteger-limit', 'x/2-1'))
 AUTH_SUMMANDS = (('division-by-zero', 'x/{v}'), ('undefined-variable', 'q*{v}'), ('unparseable-summand', '{v}+'),
                  ('unparseable-summand', 'sin({v}'), ('shape-error', '[{v}, {v}]+1'), ('blank-field', ''),
-                 ('overflow', '3^(1000*{v})'))
+                 ('overflow', '3^(1000*{v})'), ('blank-field', ' '), ('undefined-function', 'foo({v})'),
+                 ('sample-dependent:division-by-zero', '{v}/(x-3)'))
 AUTH_VARS = (('conflicting-variable-declared', 'x'), ('conflicting-variable-constant', 'i'),
              ('conflicting-variable-constant', 'j'), ('conflicting-variable-constant', 'pi'),
-             ('conflicting-variable-constant', 'e'), ('conflicting-variable-constant', 'infty'))
+             ('conflicting-variable-constant', 'e'), ('conflicting-variable-constant', 'infty'),
+             # judged only where the variable is not entered by the student (otherwise the author's own sum need not fail)
+             ('fixed-only:conflicting-variable-function', 'sin'), ('fixed-only:invalid-variable-name', '2k'),
+             ('fixed-only:blank-field', ''), ('fixed-only:blank-field', ' '))
 AUTH_BOTH = (('both-limits-infinite', 'infty'), ('both-limits-infinite', '-infty'))
 
 
@@ -776,7 +837,10 @@ class AuthorErrors(Family):
     rule = ('author sum_{n=0..3} x*n (x in DiscreteSet(2,3)) with exactly one defect from the author alphabet '
             '(limits %s in lower or upper, both limits %s, summand %s, summation variable %s with the summand '
             're-written consistently) x every subset of input_positions; the student enters a clean, valid '
-            'sum_{m=0..3} x*m in the boxes offered; expected: ConfigError on every execution'
+            'sum_{m=0..3} x*m in the boxes offered; expected: ConfigError on every execution (sample-dependent '
+            'defects: ConfigError exactly on the executions where x = 3 is drawn at some sample, a plain verdict otherwise; '
+            'defects of the summation variable that do not make the author\'s own sum fail are enumerated only where the '
+            'variable is not entered by the student)'
             % (list(AUTH_LIMITS), list(AUTH_BOTH), list(AUTH_SUMMANDS), list(AUTH_VARS)))
 
     ALPH = ([('lower', k, v) for k, v in AUTH_LIMITS] + [('upper', k, v) for k, v in AUTH_LIMITS] +
@@ -786,6 +850,13 @@ class AuthorErrors(Family):
     def cases(self, tier):
         for di in range(len(self.ALPH)):
             for si in range(len(SUBSETS)):
+                if self.ALPH[di][1].startswith('fixed-only:') and self.ALPH[di][0] in SUBSETS[si]:
+                    continue
+                if (self.ALPH[di][1].startswith('sample-dependent:') and 'summation_variable' in SUBSETS[si]
+                        and 'summand' not in SUBSETS[si]):
+                    # the student's renamed variable with the author's fixed summand is an (unrelated) student-facing
+                    # error at the first sample, which hides a failure of the author's sum at a later one
+                    continue
                 yield (di, si)
 
     def build(self, case):
@@ -825,14 +896,20 @@ class AuthorErrors(Family):
                 cls = [c for c in obs[1] if c in ('MissingInput', 'CalcError', 'InvalidInput', 'StudentFacingError',
                                                   'MITxError', 'Exception')][0]
             return 'author-side:%s:reported-as-%s' % (kind, cls)
-        return judge(self.name, prob, lambda xs: 'config-error', True, sig_of=sig)
+        if kind.startswith('sample-dependent:'):
+            # the author's sum fails exactly at the samples where x = 3; elsewhere nothing is wrong with it
+            # (the student's clean entry, valid at every sample, may be right or wrong)
+            exp = lambda xs: 'config-error' if 3 in xs else 'open'
+        else:
+            exp = lambda xs: 'config-error'
+        return judge(self.name, prob, exp, True, sig_of=sig)
 
 
 # ======================================================================================== 7. sample dependence
 
 SD_XVALS = (1, 2, 3)
 SD_LIMITS = ((0, 3), (-2, 2), (1, 4), (3, -1))
-SD_VARIANTS = ('same', 'xsq', 'vanish12', 'vanish13', 'upper_x', 'lower_x-1')
+SD_VARIANTS = ('same', 'xsq', 'vanish12', 'vanish13', 'upper_x', 'lower_x-1', 'upper_x/2')
 
 
 class SampleDependent(Family):
@@ -840,7 +917,8 @@ class SampleDependent(Family):
     timeout = 30.0
     rule = ('author sum_{n=a..b} x*n, x in DiscreteSet(1,2,3), (a,b) in %s x even_odd x samples in {1,2,3} x '
             'student answers that agree with the author only for some values of x (x^2*n: x = 1; '
-            'x*n+(x-1)*(x-2): x in {1,2}; x*n*(x-2)^2: x in {1,3}; upper limit x; lower limit x-1); ALL 3^samples '
+            'x*n+(x-1)*(x-2): x in {1,2}; x*n*(x-2)^2: x in {1,3}; upper limit x; lower limit x-1; upper limit x/2, an '
+            'integer only for x = 2: a student-facing error as soon as an odd x is drawn at any sample); ALL 3^samples '
             'combinations of draws are explored and each is judged from the values actually drawn: correct iff the '
             'sums agree at EVERY sample; non-trivial = always (the expected verdict varies with the draws)'
             % (list(SD_LIMITS),))
@@ -867,6 +945,9 @@ class SampleDependent(Family):
             hi, hi_txt = (lambda x: x), 'x'
         elif v == 'lower_x-1':
             lo, lo_txt = (lambda x: x - 1), 'x-1'
+        elif v == 'upper_x/2':
+            # an integer only where x = 2
+            hi, hi_txt = (lambda x: x // 2), 'x/2'
         prob = {'answers': {'lower': txt(a), 'upper': txt(b), 'summand': 'x*n', 'summation_variable': AUTHOR_VAR},
                 'even_odd': p, 'tolerance': 1e-9, 'samples': s, 'xvals': SD_XVALS,
                 'input': [lo_txt, hi_txt, stxt, AUTHOR_VAR]}
@@ -878,12 +959,254 @@ class SampleDependent(Family):
     def check(self, case):
         li, p, s, v = case
         prob, author, student = self.build(case)
-        res = judge(self.name, prob, lambda xs: ref_verdict(author, student, p, 1000, 1e-9, xs, True), True,
+        def exp(xs):
+            if v == 'upper_x/2' and any(x % 2 for x in xs):
+                return 'student-error'        # a non-integer limit at some sample
+            return ref_verdict(author, student, p, 1000, 1e-9, xs, True)
+        res = judge(self.name, prob, exp, True,
                     sig_of=lambda e, got, obs: 'sample-dependent:%s:%s-but-%s' % (v, e, got))
         if res.violation is None and res.calls != len(SD_XVALS) ** s:
             res.violation = viol('sampling:explored-%d-of-%d-draw-combinations' % (res.calls, len(SD_XVALS) ** s),
                                  'the sampled variable was not drawn once per sample', len(SD_XVALS) ** s, res.calls)
         return res
+
+
+# ======================================================================================== 8. documented defaults
+
+DEF_TRANSFORMS = ('same', 'swap', 'rename', 'shift_up', 'reverse', 'upper+1', 'lower-1', 'plus_one')
+DEF_NAMES = ('k_', "k''", 'n2', 'e1', 'E', 'I', 'J', 'lambda', 'in', 'a_b_c', 'infty1', 'Infty', 'dx')
+DEF_SUMMANDS = ('lin', 'xlin', 'vec')
+DEF_MODES = ('bare', 'debug')
+
+
+class Defaults(Family):
+    name = 'defaults'
+    timeout = 20.0
+    rule = ('SumGrader built from `answers` alone (plus the sampled variable where the summand needs one): even_odd, '
+            'samples, tolerance, input_positions and infty_val are all LEFT OUT, so the documented defaults apply (every '
+            'integer, 2 samples, absolute 1e-12, four boxes in the standard order); mode debug adds debug=True, which '
+            'must not change a verdict.  author sum_{n=a..b} f(n), (a, b) in [-R, R]^2 (R = 2 quick, 4 thorough) x f in '
+            '%s x re-writings %s (the shift by one and the reversal are sums equal to the author\'s only when EVERY '
+            'integer is summed) x mode in %s; plus sum_{n=0..3} renamed to each of %s (names without any other '
+            'meaning: free renaming); the number of explored draw combinations must be |X|^2 (two samples); '
+            'non-trivial = re-writing != same'
+            % (list(DEF_SUMMANDS), list(DEF_TRANSFORMS), list(DEF_MODES), list(DEF_NAMES)))
+
+    def cases(self, tier):
+        r = 2 if tier == 'quick' else 4
+        rng = sorted(range(-r, r + 1), key=lambda v: (abs(v), v))
+        for a in rng:
+            for b in rng:
+                for skey in DEF_SUMMANDS:
+                    for t in DEF_TRANSFORMS:
+                        for mode in DEF_MODES:
+                            yield (a, b, skey, t, mode)
+        for nm in DEF_NAMES:
+            for skey in ('lin', 'xlin'):
+                yield (0, 3, skey, 'name:' + nm, 'bare')
+
+    def build(self, case):
+        a, b, skey, t, mode = case
+        tpl, f, one, exact, needs_x = SUMMANDS[skey]
+        if t.startswith('name:'):
+            var = t[5:]
+            lo, hi, lo_txt, hi_txt, stxt, fn = a, b, txt(a), txt(b), sub(tpl, var), f
+        else:
+            lo, hi, lo_txt, hi_txt, var, stxt, fn = student_rewrite(a, b, 0, skey, t)
+        prob = {'answers': {'lower': txt(a), 'upper': txt(b), 'summand': sub(tpl, AUTHOR_VAR),
+                            'summation_variable': AUTHOR_VAR},
+                'even_odd': 0, 'tolerance': UNSET, 'samples': 2, 'omit': ['even_odd', 'samples'],
+                'debug': True if mode == 'debug' else None,
+                'xvals': XVALS if needs_x else None,
+                'input': [lo_txt, hi_txt, stxt, var]}
+        return prob, (a, b, f), (lo, hi, fn), exact, needs_x
+
+    def describe(self, case):
+        return describe_prob(self.build(case)[0])
+
+    def check(self, case):
+        a, b, skey, t, mode = case
+        prob, author, student, exact, needs_x = self.build(case)
+        res = judge(self.name, prob,
+                    lambda xs: ref_verdict(author, student, 0, 1000, DEFAULT_TOLERANCE, xs, exact), t != 'same',
+                    sig_of=lambda e, got, obs: 'defaults:%s:%s:%s-but-%s' % (mode, t.split(':')[0], e, got))
+        want = len(XVALS) ** 2 if needs_x else 1
+        if res.violation is None and res.calls != want:
+            res.violation = viol('defaults:samples:explored-%d-of-%d-draw-combinations' % (res.calls, want),
+                                 'the sampled variable was not drawn once for each of the 2 default samples',
+                                 want, res.calls)
+        return res
+
+
+# ======================================================================================== 9. pairs of limits
+
+LP_LIMITS = (('int', '-2'), ('int', '3'), ('int', '0'), ('inf', 'infty'), ('ninf', '-infty'),
+             ('nonint', '1.5'), ('nonint', '-1/2'), ('nonint', 'infty-infty'), ('nonint', '[1, 2]'),
+             ('complex', 'i'), ('complex', '-2*i'), ('complex', '1.5+i'))
+LP_SIDES = ('student', 'author-all-boxes', 'author-summand-box')
+LP_CUTOFF = 6
+
+
+def _lp_value(kind, text):
+    return int(text) if kind == 'int' else INF if kind == 'inf' else NINF if kind == 'ninf' else None
+
+
+class LimitPairs(Family):
+    name = 'limit_pairs'
+    timeout = 20.0
+    rule = ('EVERY ordered pair (lower, upper) from %s x even_odd x side: (student) the pair is submitted against the '
+            'author\'s sum_{n=-2..3} 2^n; (author-all-boxes / author-summand-box) the pair is the AUTHOR\'s and the '
+            'student enters a clean sum_{m=-2..3} 2^m in four boxes / only the summand.  infty_val = %d.  Expected: a '
+            'non-integer (also nan, an array) or complex limit on either position -- whatever the other limit is, '
+            'infinite ones included -- gives a student-facing error on the student\'s side and a ConfigError on the '
+            'author\'s; otherwise the verdict of the reference sums (2^n makes sums over different index sets '
+            'different); the same infinity twice is left open for the student and is a ConfigError for the author; '
+            'non-trivial = always except the student\'s pair being the author\'s text'
+            % ([t for k, t in LP_LIMITS], LP_CUTOFF))
+
+    def cases(self, tier):
+        for li in range(len(LP_LIMITS)):
+            for ui in range(len(LP_LIMITS)):
+                for p in (0, 1, 2):
+                    for side in LP_SIDES:
+                        yield (li, ui, p, side)
+
+    def build(self, case):
+        li, ui, p, side = case
+        (lk, lt), (uk, ut) = LP_LIMITS[li], LP_LIMITS[ui]
+        tpl, f, one, exact, needs_x = SUMMANDS['pow2']
+        positions = None
+        if side == 'student':
+            answers = {'lower': '-2', 'upper': '3', 'summand': '2^n', 'summation_variable': 'n'}
+            inp = [lt, ut, '2^n', 'n']
+        else:
+            answers = {'lower': lt, 'upper': ut, 'summand': '2^n', 'summation_variable': 'n'}
+            if side == 'author-all-boxes':
+                inp = ['-2', '3', '2^m', 'm']
+            else:
+                positions = {'summand': 1}
+                inp = ['2^n*1']
+        prob = {'answers': answers, 'positions': positions, 'even_odd': p, 'tolerance': 1e-9, 'samples': 2,
+                'infty_val': LP_CUTOFF, 'input': inp}
+        bad = any(k in ('nonint', 'complex') for k in (lk, uk))
+        lo, hi = _lp_value(lk, lt), _lp_value(uk, ut)
+        return prob, bad, lo, hi, f
+
+    def describe(self, case):
+        return describe_prob(self.build(case)[0])
+
+    def check(self, case):
+        li, ui, p, side = case
+        prob, bad, lo, hi, f = self.build(case)
+        base = (-2, 3, f)
+        if side == 'student':
+            if bad:
+                exp = lambda xs: 'student-error'
+            else:
+                exp = lambda xs: ref_verdict(base, (lo, hi, f), p, LP_CUTOFF, 1e-9, xs, True)
+        else:
+            if bad or (lo in (INF, NINF) and lo == hi):
+                exp = lambda xs: 'config-error'
+            else:
+                student = base if side == 'author-all-boxes' else (lo, hi, f)
+                exp = lambda xs: ref_verdict((lo, hi, f), student, p, LP_CUTOFF, 1e-9, xs, True)
+        nontriv = not (side == 'student' and (LP_LIMITS[li][1], LP_LIMITS[ui][1]) == ('-2', '3'))
+        kinds = '%s/%s' % (LP_LIMITS[li][0], LP_LIMITS[ui][0])
+        return judge(self.name, prob, exp, nontriv,
+                     sig_of=lambda e, got, obs: 'limit-pairs:%s:%s:%s-but-%s' % (side, kinds, e, got))
+
+
+# ======================================================================================== 10. one grader, several calls
+
+def _ru_all2(xs):
+    return 'correct' if all(x == 2 for x in xs) else 'incorrect'
+
+
+RU_SUBS = (('same', ('0', '3', 'x*n+1', 'n'), lambda xs: 'correct'),
+           ('shifted', ('1', '4', 'x*(k-1)+1', 'k'), lambda xs: 'correct'),
+           ('upper+1', ('0', '4', 'x*n+1', 'n'), lambda xs: 'incorrect'),
+           ('right-only-for-x=2', ('0', '3', 'x*n+1+(x-2)', 'n'), _ru_all2),
+           ('infinite-wrong', ('-infty', '3', 'x*n+1', 'n'), lambda xs: 'incorrect'),
+           ('noninteger-limit', ('0.5', '3', 'x*n+1', 'n'), lambda xs: 'student-error'),
+           ('variable-declared', ('0', '3', 'x*x+1', 'x'), lambda xs: 'student-error'),
+           ('fails-mid-sum', ('0', '3', 'x*n+1+0/(n-2)', 'n'), lambda xs: 'anything'),
+           ('blank-summand', ('0', '3', '', 'n'), lambda xs: 'student-error'))
+RU_XVALS = (2, 3)
+RU_TRIPLE_ALPHABET = (0, 2, 3, 5, 6, 7)      # indices into RU_SUBS used for the sequences of three calls
+RU_ARRANGEMENTS = ('one-grader', 'two-graders-sharing-config-objects')
+
+
+class Reuse(Family):
+    name = 'reuse'
+    timeout = 60.0
+    rule = ('sequences of calls instead of a fresh grader per call: author sum_{n=0..3} x*n+1, x in DiscreteSet(2,3), '
+            '2 samples, infty_val 5; EVERY sequence of 2 submissions from %s (thorough: also every sequence of 3 from '
+            'same, upper+1, right-only-for-x=2, noninteger-limit, variable-declared, fails-mid-sum on one grader) -- verdicts, '
+            'submissions that raise before, during and after sampling -- made (one-grader) on the same SumGrader '
+            'object or (two-graders-sharing-config-objects) alternately on two SumGraders built from the very same '
+            'answers / input_positions / sample_from objects; ALL draw combinations of all calls are explored '
+            'and EVERY call is judged on its own from the values drawn during that call: no call may depend on '
+            'what was graded, or raised, before; non-trivial = always' % ([n for n, i, e in RU_SUBS],))
+
+    def cases(self, tier):
+        n = len(RU_SUBS)
+        for arr in range(len(RU_ARRANGEMENTS)):
+            for seq in itertools.product(range(n), repeat=2):
+                yield (arr, list(seq))
+        if tier != 'quick':
+            for seq in itertools.product(RU_TRIPLE_ALPHABET, repeat=3):
+                yield (0, list(seq))
+
+    def describe(self, case):
+        arr, seq = case
+        return {'arrangement': RU_ARRANGEMENTS[arr],
+                'config': {'answers': {'lower': '0', 'upper': '3', 'summand': 'x*n+1', 'summation_variable': 'n'},
+                           'variables': ['x'], 'sample_from': {'x': 'DiscreteSet((2, 3))'}, 'samples': 2,
+                           'tolerance': 1e-9, 'infty_val': 5},
+                'calls': [list(RU_SUBS[i][1]) for i in seq]}
+
+    def check(self, case):
+        import mitxgraders
+        arr, seq = case
+
+        def body(ch):
+            answers = {'lower': '0', 'upper': '3', 'summand': 'x*n+1', 'summation_variable': 'n'}
+            positions = {'lower': 1, 'upper': 2, 'summand': 3, 'summation_variable': 4}
+            sample_from = {'x': mitxgraders.DiscreteSet(RU_XVALS)}
+            variables = ['x']
+
+            def make():
+                return mitxgraders.SumGrader(answers=answers, input_positions=positions, variables=variables,
+                                             sample_from=sample_from, samples=2, tolerance=1e-9, infty_val=5)
+            g1 = make()
+            g2 = make() if arr == 1 else g1
+            out = []
+            for k, si in enumerate(seq):
+                start = len(ch.points)
+                obs = observe(g1 if k % 2 == 0 else g2, list(RU_SUBS[si][1]))
+                out.append((obs, start, len(ch.points)))
+            return out
+
+        calls = 0
+        seen = set()
+        first = None
+        for ch, out in explore(body, bound=None):
+            for k, (obs, start, end) in enumerate(out):
+                calls += 1
+                name, inp, exp_of = RU_SUBS[seq[k]]
+                xs = [RU_XVALS[c] for (kind, n), c in zip(ch.points[start:end], ch.choices[start:end])
+                      if kind == 'choice/%d' % len(RU_XVALS)]
+                exp = exp_of(xs)
+                got = classify(obs)
+                seen.add('%s->%s' % (exp, got))
+                if got not in ALLOWED[exp] and first is None:
+                    first = viol('reuse:%s:call-%d-of-%d:%s:%s-but-%s'
+                                 % (RU_ARRANGEMENTS[arr], k + 1, len(seq), name, exp, got),
+                                 'call %d (%s) after %s: expected %s, observed %s'
+                                 % (k + 1, name, [RU_SUBS[i][0] for i in seq[:k]], exp, got),
+                                 {'expected': exp, 'sampled_x_in_this_call': xs, 'history': self.describe(case)},
+                                 {'class': got, 'raw': obs})
+        return Result('|'.join(sorted(seen)), True, first, calls)
 
 
 # ======================================================================================== registry
@@ -894,4 +1217,5 @@ EQUIV_KEYS = ('lin', 'sq', 'alt', 'pow2', 'xlin', 'cpow', 'vec')
 def families(tier):
     fams = [Equivalence(k) for k in EQUIV_KEYS]
     fams += [Tolerance(), Positions(), Infinite(), FactorialCutoff(), StudentErrors(), AuthorErrors(), SampleDependent()]
+    fams += [ToleranceEdges(), Defaults(), LimitPairs(), Reuse()]
     return fams
